@@ -33,7 +33,7 @@ structure M3 (α : Type) where
   r1 : V3 α
   r2 : V3 α
   r3 : V3 α
-deriving Repr
+deriving Repr, DecidableEq
 
 section vec
 variable {α : Type} [Add α] [Sub α] [Mul α]
